@@ -140,11 +140,12 @@ def jobs(tier, seed):
         for idx in range(len(shapes)):
             if n == 6 and idx % 16 != seed % 16:
                 continue  # 1960 bodies: VERIF_SEED selects which sixteenth is explored (each exhaustively)
-            for order in ("fwd", "rev"):
+            for order in ("fwd", "rev") if n < 6 else ("fwd",):
                 for t, m in ((1, None), (2, 1)) if ((tier == "thorough" and n < 6) or n < 5) else ((1, None),):
                     limit = DEFAULT_MAX if m is None else m
-                    # quick: the 98 five-stage bodies in delivery order only (all orders for 3 and 4 stages)
-                    fifo = tier != "thorough" and n >= 5
+                    # quick: the 98 five-stage bodies in delivery order only (all orders for 3 and 4 stages);
+                    # thorough: all orders for one requested jump, delivery order for the two-jump variant
+                    fifo = (tier != "thorough" and n >= 5) or (tier == "thorough" and n >= 5 and t == 2)
                     js.append({"label": f"body{n}#{idx} {order} requested={t} max={m}" + ("|in-order" if fifo else ""),
                                "wl": wl("jump_dag_loop", n, idx, t, m, order), "source": shapes[idx][2], "fifo": fifo,
                                "target": shapes[idx][1], "requested": t, "limit": limit, "forward": False, "budget": {}})
